@@ -4,7 +4,7 @@ Seeded choice of configurations; for each, complete traversal of the random-outc
 ParticleGibbsTreeSampler.sample_tree from every start state; exact transition matrix; pi K = pi to 1e-9."""
 import random
 
-from sim import kernelcheck, kernelmat
+from sim import kernelcheck, kernelmat, pgpath, runner
 from sim.kernelcheck import PROPOSALS
 
 LEVEL = "exploration"
@@ -28,6 +28,7 @@ def configs(ctx):
         for wiring in ("run", "lib"):
             out.append(dc(op="pg", n=3, proposal=prop, wiring=wiring, data_seed=16, grid=5))
             out.append(dc(op="pg", n=3, proposal=prop, wiring=wiring, outlier_prob=0.1, alpha=2.5, data_seed=17))
+    mandatory = len(out)
     r = random.Random(ctx.sub("cfg"))
     for i in range(16 if quick else 200):
         c = kernelcheck.random_config(r, "pg", [1, 2, 2, 3, 3, 3], [2, 2, 3] if quick else [2, 2, 3, 4])
@@ -39,12 +40,26 @@ def configs(ctx):
             out.append(dc(op="pg", n=4, proposal=prop, wiring="run", data_seed=18, alpha=1.7))
             out.append(dc(op="pg", n=4, proposal=prop, wiring="lib", outlier_prob=0.05, data_seed=19))
             out.append(dc(op="pg", n=3, N=3, proposal=prop, wiring="run", threshold=1.0, data_seed=20))
-    return out
+    return out, mandatory
 
 
 def run(ctx):
-    cfgs = configs(ctx)
-    kernelcheck.run_configs(ctx, cfgs, budget_s=75 if ctx.tier == "quick" else 3000)
+    cfgs, N_MANDATORY = configs(ctx)
+    kernelcheck.run_configs(ctx, cfgs, budget_s=70 if ctx.tier == "quick" else 3000, mandatory=N_MANDATORY)
+    # beyond the traversable sizes: sampled paths with path-local oracles only (can refute, never confirm)
+    seeds = [ctx.sub(("path", i)) for i in range(160 if ctx.tier == "quick" else 6000)]
+    res = runner.pmap(pgpath.task, seeds, timeout=1200)
+    st = {"resamples": 0, "updates": 0, "retained_duplicated": 0}
+    for out in res:
+        if out["cfg"]["op"] != "pg":
+            continue
+        for k in st:
+            st[k] += out["stats"][k]
+        for key, detail in out["problems"]:
+            ctx.violation(key, detail + " | sampled path seed %d config %r" % (out["seed"], out["cfg"]), {"path_seed": out["seed"], "key": key})
+    ctx.cov["sampled_paths_beyond_traversable_sizes"] = {"runs": sum(1 for o in res if o["cfg"]["op"] == "pg"), "n": "4..7", "N": "2..10", **st}
+    ctx.probe("resampling_triggered_in_sampled_paths", st["resamples"])
+    ctx.probe("retained_particle_duplicated_by_resampling", st["retained_duplicated"])
     ctx.cov["rule"] = ("configuration = (data set of n<=3 (thorough: 4) points, alpha, proposal, particles N, threshold, outlier "
                        "probability, wiring run|lib); a fixed cross of proposals x wirings x outliers plus seeded random ones; one "
                        "evaluation = one start state whose complete outcome tree of ParticleGibbsTreeSampler.sample_tree was "
@@ -61,4 +76,14 @@ def run(ctx):
 
 
 def replay(ctx, obj):
+    if "path_seed" in obj:
+        from sim import bridge
+
+        bridge.warm_up()
+        out = pgpath.task(obj["path_seed"])
+        for key, detail in out["problems"]:
+            if key == obj["key"]:
+                ctx.violation(key, detail, obj)
+        ctx.cov["evaluations"] = 1
+        return
     kernelcheck.replay(ctx, obj)
